@@ -70,24 +70,32 @@ def shape_ok(sp, obj, sels, data, path, err_paths):
         for n in nodes:
             merged += n["sels"] or []
         has_sub = any(n["sels"] is not None for n in nodes)
-        r = value_ok(sp, fd["type"], data[k], merged, has_sub, path + [k], err_paths)
+        # the runtime types below this field are known from the world (not guessed from the data)
+        raw = None
+        a = nodes[0]["args"].get(obj)
+        if not fd.get("meta") and isinstance(a, str):
+            o = sp.world.outcome(obj, fd["name"], fd["type"], path + [k], a)
+            if o[0] == "val":
+                raw = ("known", o[1])
+        r = value_ok(sp, fd["type"], data[k], merged, has_sub, path + [k], err_paths, raw)
         if r:
             return r
     return None
 
 
-def value_ok(sp, t, v, merged, has_sub, path, err_paths):
+def value_ok(sp, t, v, merged, has_sub, path, err_paths, raw=None):
     if t["k"] == "nonNull":
         if v is None:
             return None if json.dumps(path) in err_paths else "null at non-null position %s without error" % path
-        return value_ok(sp, t["t"], v, merged, has_sub, path, err_paths)
+        return value_ok(sp, t["t"], v, merged, has_sub, path, err_paths, raw)
     if v is None:
         return None
     if t["k"] == "list":
         if not isinstance(v, list):
             return "list expected at %s" % path
+        items = raw[1][1] if (raw and isinstance(raw[1], tuple) and raw[1][0] == "list" and len(raw[1][1]) == len(v)) else None
         for i, x in enumerate(v):
-            r = value_ok(sp, t["t"], x, merged, has_sub, path + [i], err_paths)
+            r = value_ok(sp, t["t"], x, merged, has_sub, path + [i], err_paths, ("known", items[i]) if items is not None else None)
             if r:
                 return r
         return None
@@ -105,6 +113,8 @@ def value_ok(sp, t, v, merged, has_sub, path, err_paths):
     if not has_sub:
         return "composite without sub-selection at %s" % path
     cands = [name] if kind == "object" else sp.world.possible(name)
+    if kind != "object" and raw and isinstance(raw[1], tuple) and raw[1][0] == "obj" and raw[1][1] in cands:
+        cands = [raw[1][1]]        # the runtime object type the world resolved to
     last = "no possible type at %s" % path
     for c in cands:
         r = shape_ok(sp, c, merged, v, path, err_paths)
@@ -114,14 +124,14 @@ def value_ok(sp, t, v, merged, has_sub, path, err_paths):
     return last
 
 
-def check_shape(dump, docj, opname, coerced, res):
+def check_shape(dump, docj, opname, coerced, res, seed=None):
     op = X.get_operation_j(docj, opname)
     if op is None or "data" not in res or res["data"] is None:
         return None
     root = {"query": dump.get("query"), "mutation": dump.get("mutation")}.get(op["op"])
     if root is None:
         return None
-    sp = X.PySpec(dump, docj, coerced, X.World(dump, 0, 0))
+    sp = X.PySpec(dump, docj, coerced, X.World(dump, seed if seed is not None else 0, 0))
     err_paths = {json.dumps(e["path"]) for e in res["errors"]}
     try:
         return shape_ok(sp, root, op["sels"], res["data"], [], err_paths)
@@ -173,7 +183,7 @@ def one_document(ctx, schema, holder, dump, sdl, enum_kind, label, text, variabl
     ctx.stat(stream + ":accepted")
     if label:
         ctx.stat("accepted-adversarial:" + label)
-    for k in range(6 if (label or "").startswith(("same-key", "untyped-inline")) else 2):
+    for k in range(6 if (label or "").startswith(("same-key", "untyped-inline", "merge-safe")) else 2):
         c = K.Case()
         c.sdl, c.enum_kind, c.text, c.variables, c.opname = sdl, enum_kind, text, variables, opname
         c.seed, c.mode, c.features = rng.randint(0, 10 ** 6), 0, set()
@@ -196,7 +206,7 @@ def one_document(ctx, schema, holder, dump, sdl, enum_kind, label, text, variabl
                      c.replay_data({"impl": c.impl, "label": label}))
             return "accepted"
         if "data" in c.impl:
-            why = check_shape(dump, c.docj, c.opname, c.coerced, c.impl)
+            why = check_shape(dump, c.docj, c.opname, c.coerced, c.impl, c.seed)
             if why:
                 ctx.fail("shape-mismatch:%s" % (label or K.features_sig(text)),
                          "validation accepted the document but the response data does not have the shape given by selections and types: " + why,
@@ -382,7 +392,7 @@ def run(ctx):
 
 FIXED_SDL = ("type Query { a(l: [Int], x: String, o: In, i: Int): Int, b: Ob, u: U, n: Node, ns: [Node!], s: String! }\n"
              "type Ob implements Node { id: ID, t(x: Int): String, a(l: [Int]): Int, b: Ob, only: Other }\n"
-             "type Other implements Node { id: ID, t(x: Int): String, c: String, b: Ob }\n"
+             "type Other implements Node { id: ID, t(x: Int): String, c: String, b: Ob, d: Int }\n"
              "interface Node { id: ID, t(x: Int): String, b: Ob }\ninput In { a: Int }\nunion U = Ob | Other\n")
 
 FIXED = [
@@ -423,6 +433,11 @@ FIXED = [
     ("untyped-inline-leak-composite-as-leaf", "{ n { b { ... { id } } ... { only } } }", {}),
     ("untyped-inline-leak-union", "{ u { ... on Node { b { ... { id } } } ... { id a } } }", {}),
     ("untyped-inline-leak-other-level", "{ b { ... { id } } n { ... { a } } }", {}),
+    ("merge-safe-exclusive-leaf", "{ n { __typename ... on Ob { v: a } ... on Other { v: d } } }", {}),
+    ("merge-safe-exclusive-list-composite", "{ ns { __typename ... on Ob { v: a w: b { id } } ... on Other { v: d w: b { t } } } u { ... on Ob { v: b { id } } ... on Other { v: b { t } } } }", {}),
+    ("merge-safe-exclusive-fragments", "{ n { ...FA ...FB } } fragment FA on Ob { v: a } fragment FB on Other { v: d }", {}),
+    ("merge-safe-levels", "{ v: s b { v: id b { v: a } } }", {}),
+    ("merge-safe-levels-fragment", "{ v: s b { ...L } } fragment L on Ob { v: id b { v: a } }", {}),
     ("same-key-same-field-both-orders", "{ n { ... on Node { k: id } ... on Ob { k: id } } u { ... on Ob { k: id } ... on Node { k: id } } }", {}),
 ]
 
@@ -458,6 +473,16 @@ def flush_lean(ctx, batch):
                      "(the totality theorem `responds_certified` does not apply: fragment cycle?)",
                      c.replay_data({"label": label}), kind="correspondence")
         ctx.stat("key-consistent:%s" % a.get("key_consistent"))
+        ctx.stat("merge-safe:%s" % a.get("merge_safe"))
+        if a.get("merge_safe") and a.get("key_consistent") is False:
+            ctx.stat("merge-safe-but-not-key-consistent")
+            if label:
+                ctx.stat("merge-safe-but-not-key-consistent:" + label)
+        if a.get("merge_safe") is False:
+            ctx.fail("corr:accepted-but-not-MergeSafe:%s" % (label or K.features_sig(c.text)),
+                     "validate_ast accepted a document that the Lean evaluator of MergeSafe (declarative OverlappingFieldsCanBeMerged, "
+                     "the premise of validated_no_internal_error) rejects",
+                     c.replay_data({"label": label}), kind="correspondence")
         if "internal" in model:
             ctx.fail("corr:model-internal-on-validated:%s" % model["internal"],
                      "the model takes an internalError branch on a validator-accepted document (the implementation did not)",
@@ -517,7 +542,7 @@ def replay(ctx, data):
             print("execution raises", c.impl)
             ok = False
         elif "data" in c.impl:
-            why = check_shape(dump, c.docj, c.opname, c.coerced, c.impl)
+            why = check_shape(dump, c.docj, c.opname, c.coerced, c.impl, c.seed)
             if why:
                 print("shape:", why)
                 ok = False
